@@ -107,38 +107,65 @@ func TestC08(t *testing.T) {
 		}
 		base := kit.Schema{Name: "DB", Version: "1.0.0", Tables: []kit.Table{tb}}
 		g := kit.NewTxnGen(base, kit.TxnCfg{MayReject: rapid.IntRange(0, 4).Draw(t, "mayreject") == 0})
-		nc := rapid.IntRange(0, 4).Draw(t, "nconds")
-		var conds []kit.Cond
-		for i := 0; i < nc; i++ {
-			c := genC08Cond(t, g, tb, rows, pool)
-			if hasZero(c.Val) {
-				continue
-			}
-			conds = append(conds, c)
+		// a sequence of queries evaluated one after the other on the same caches and
+		// databases: selecting must not change what later selections see
+		nq := rapid.IntRange(1, 4).Draw(t, "nqueries")
+		type query struct {
+			conds     []kit.Cond
+			text      string
+			mayReject bool
+			expected  map[string]bool
+			where     []ovsdb.Condition
+			dec       []ovsdb.Operation
 		}
-		whereText := kit.MustJSON(kit.Op{Op: "select", Table: tb.Name, Where: conds}.Wire(base))
-		kase := c08Case{Rows: rows, Where: string(whereText)}
+		var queries []query
+		var texts []string
+		for qi := 0; qi < nq; qi++ {
+			var conds []kit.Cond
+			if qi > 0 && rapid.IntRange(0, 2).Draw(t, "requery") == 0 {
+				// a sub-list of an earlier query: the same index entries are visited again
+				prev := queries[rapid.IntRange(0, qi-1).Draw(t, "prev")].conds
+				for _, c := range prev {
+					if rapid.Bool().Draw(t, "keepcond") {
+						conds = append(conds, c)
+					}
+				}
+			} else {
+				nc := rapid.IntRange(0, 4).Draw(t, "nconds")
+				for i := 0; i < nc; i++ {
+					c := genC08Cond(t, g, tb, rows, pool)
+					if hasZero(c.Val) {
+						continue
+					}
+					conds = append(conds, c)
+				}
+			}
+			q := query{conds: conds, expected: map[string]bool{}}
+			q.text = string(kit.MustJSON(kit.Op{Op: "select", Table: tb.Name, Where: conds}.Wire(base)))
+			model1 := refdb.Exec(base, kit.State{tb.Name: rows}, []kit.Op{{Op: "select", Table: tb.Name, Where: conds}}, nil)
+			if model1.FailedAt >= 0 {
+				t.Fatalf("harness: generated condition list is not well-typed: %+v", model1.Results)
+			}
+			q.mayReject = model1.Results[0].MayReject != ""
+			for _, r := range model1.Results[0].Rows {
+				q.expected[r["_uuid"].K[0].S] = true
+			}
+			dec, err := kit.DecodeOps(base, []kit.Op{{Op: "select", Table: tb.Name, Where: conds}})
+			if err != nil {
+				t.Fatalf("harness: %v", err)
+			}
+			q.dec = dec
+			q.where = dec[0].Where
+			queries = append(queries, q)
+			texts = append(texts, q.text)
+		}
+		kase := c08Case{Rows: rows, Where: strings.Join(texts, " ; ")}
 		for _, c := range configs {
 			kase.Configs = append(kase.Configs, c.name)
 		}
-		// expected answer
-		mayReject := false
-		expected := map[string]bool{}
-		model1 := refdb.Exec(base, kit.State{tb.Name: rows}, []kit.Op{{Op: "select", Table: tb.Name, Where: conds}}, nil)
-		if model1.FailedAt >= 0 {
-			t.Fatalf("harness: generated condition list is not well-typed: %+v", model1.Results)
-		}
-		mayReject = model1.Results[0].MayReject != ""
-		for _, r := range model1.Results[0].Rows {
-			expected[r["_uuid"].K[0].S] = true
-		}
-		dec, err := kit.DecodeOps(base, []kit.Op{{Op: "select", Table: tb.Name, Where: conds}})
-		if err != nil {
-			t.Fatalf("harness: %v", err)
-		}
-		where := dec[0].Where
 		type answer struct {
 			name string
+			q    int
 			err  error
 			got  map[string]bool
 		}
@@ -169,12 +196,6 @@ func TestC08(t *testing.T) {
 					kit.Fail(t, "C08", "cache.apply-error", kase, "config %s: Create(%s): %v", cfg.name, u, err)
 				}
 			}
-			got, err := rc.RowsByCondition(where)
-			a := answer{name: cfg.name + "/cache", err: err, got: map[string]bool{}}
-			for u := range got {
-				a.got[u] = true
-			}
-			answers = append(answers, a)
 			// the same through the database layer: List with conditions and a select operation
 			db, err := kit.NewDB(w)
 			if err != nil {
@@ -190,24 +211,50 @@ func TestC08(t *testing.T) {
 					kit.Fail(t, "C08", "harness.load", kase, "config %s: loading the rows failed: %s %v", cfg.name, kit.ResultsJSON(out.Results), out.CommitErr)
 				}
 			}
-			lst, err := db.DB.List(db.Name, tb.Name, where...)
-			a = answer{name: cfg.name + "/List", err: err, got: map[string]bool{}}
-			for u := range lst {
-				a.got[u] = true
-			}
-			answers = append(answers, a)
-			out := db.Transact(append([]ovsdb.Operation{}, dec...))
-			a = answer{name: cfg.name + "/select", got: map[string]bool{}}
-			if len(out.Results) > 0 && out.Results[0] != nil && out.Results[0].Error != "" {
-				a.err = fmt.Errorf("%s", out.Results[0].Error)
-			} else if len(out.Results) > 0 && out.Results[0] != nil {
-				for _, r := range out.Results[0].Rows {
-					if uu, ok := r["_uuid"].(ovsdb.UUID); ok {
-						a.got[uu.GoUUID] = true
+			for qi, q := range queries {
+				got, err := rc.RowsByCondition(q.where)
+				a := answer{name: cfg.name + "/cache", q: qi, err: err, got: map[string]bool{}}
+				for u := range got {
+					a.got[u] = true
+				}
+				answers = append(answers, a)
+				lst, err := db.DB.List(db.Name, tb.Name, q.where...)
+				a = answer{name: cfg.name + "/List", q: qi, err: err, got: map[string]bool{}}
+				for u := range lst {
+					a.got[u] = true
+				}
+				answers = append(answers, a)
+				db.ViaServer = qi%2 == 1
+				out := db.Transact(append([]ovsdb.Operation{}, q.dec...))
+				db.ViaServer = false
+				a = answer{name: cfg.name + "/select", q: qi, got: map[string]bool{}}
+				if len(out.Results) > 0 && out.Results[0] != nil && out.Results[0].Error != "" {
+					a.err = fmt.Errorf("%s", out.Results[0].Error)
+				} else if len(out.Results) > 0 && out.Results[0] != nil {
+					for _, r := range out.Results[0].Rows {
+						if uu, ok := r["_uuid"].(ovsdb.UUID); ok {
+							a.got[uu.GoUUID] = true
+						}
 					}
 				}
+				answers = append(answers, a)
 			}
-			answers = append(answers, a)
+			// reading must leave every index in agreement with a scan (C05's oracle)
+			icfg := indexCfg{Schema: cfg.schema}
+			for _, ci := range cfg.client {
+				var cks []c05ColKey
+				for _, ck := range ci.Columns {
+					k := ""
+					if ck.Key != nil {
+						k = fmt.Sprint(ck.Key)
+					}
+					cks = append(cks, c05ColKey{Col: ck.Column, Key: k})
+				}
+				icfg.Client = append(icfg.Client, cks)
+			}
+			if m := checkCacheIndexes(w, tcopy, icfg, rc, rows, nil); m != nil {
+				kit.Fail(t, "C08", "select.index-damaged", kase, "config %s: after the selections [%s] the cache indexes disagree with a scan: %s", cfg.name, kase.Where, m.Error())
+			}
 			if len(cfg.schema)+len(cfg.client) > 0 {
 				indexable = true
 			}
@@ -221,22 +268,29 @@ func TestC08(t *testing.T) {
 			return strings.Join(ks, ",")
 		}
 		for _, a := range answers {
+			q := queries[a.q]
 			if a.err != nil {
-				if mayReject {
+				if q.mayReject {
 					continue
 				}
-				kit.Fail(t, "C08", "select.spurious-error", kase, "%s: well-typed conditions %s rejected: %v", a.name, whereText, a.err)
+				kit.Fail(t, "C08", "select.spurious-error", kase, "%s: query %d: well-typed conditions %s rejected: %v", a.name, a.q, q.text, a.err)
 			}
-			if render(a.got) != render(expected) {
-				kit.Fail(t, "C08", "select.wrong-rows", kase, "%s: where %s selects rows {%s}, RFC 7047 5.1 selects {%s}", a.name, whereText, render(a.got), render(expected))
+			if render(a.got) != render(q.expected) {
+				kit.Fail(t, "C08", "select.wrong-rows", kase, "%s: query %d of [%s]: where %s selects rows {%s}, RFC 7047 5.1 selects {%s}", a.name, a.q, kase.Where, q.text, render(a.got), render(q.expected))
 			}
 		}
 		var fns []string
-		for _, c := range conds {
-			col := tb.ColOf(c.Col)
-			fns = append(fns, fmt.Sprintf("%s:%s:%s", c.Fn, col.Shape(), col.Key.T))
+		nontrivial := false
+		for _, q := range queries {
+			for _, c := range q.conds {
+				col := tb.ColOf(c.Col)
+				fns = append(fns, fmt.Sprintf("%s:%s:%s", c.Fn, col.Shape(), col.Key.T))
+			}
+			if len(q.conds) >= 2 && indexable && len(q.expected) > 0 && len(q.expected) < len(rows) {
+				nontrivial = true
+			}
 		}
-		nontrivial := len(conds) >= 2 && indexable && len(expected) > 0 && len(expected) < len(rows)
+		kit.LabelN("C08", fmt.Sprintf("queries_per_cache=%d", len(queries)), 1)
 		kit.Record("C08", strings.Join(fns, ",")+"|"+strings.Join(kase.Configs, ";"), nontrivial, func() interface{} { return kase }, fns...)
 	})
 }
